@@ -361,7 +361,7 @@ def _unq(e):
     while True:
         if e.get("k") == "Match" and e.get("src") == "TryDesugar":
             e = peel(peel(e["scrut"])["args"][0])
-        elif e.get("k") == "MethodCall" and e["name"] in ("map_err", "unwrap", "expect"):
+        elif e.get("k") == "MethodCall" and e["name"] in ("map_err", "unwrap", "expect", "ok_or", "ok_or_else"):
             e = peel(e["recv"])
         else:
             return e
@@ -457,6 +457,50 @@ def _reader_check(then, toks, variant, nfields, field_tys):
                         probs.append((f"split|separator-in-field{t[1]}", f"the reader splits at {sorted(seps)} but field {t[1]} is written with characters {sorted(hit)} (its sign): the sign is consumed as a separator, so e.g. -4 reloads as 4 / as another piece", loc(init)))
                     pieces[-1].append(t)
             env[pat["name"]] = ("split", pieces, [0])
+            return
+        if init.get("k") == "MethodCall" and init["name"] in ("split_once", "rsplit_once") and pat.get("k") == "PTuple" and init["name"] == "split_once":
+            src = str_tokens(init["recv"])
+            a = peel(init["args"][0])
+            sep = lit_value(a)
+            if isinstance(sep, str) and len(sep) == 1:
+                sepchars = {sep}
+            elif a.get("k") == "Array" and all(isinstance(lit_value(x), str) and len(lit_value(x)) == 1 for x in a["elems"]):
+                sepchars = {lit_value(x) for x in a["elems"]}
+            else:
+                raise Unx(f"split_once pattern `{ekey(a)}`")
+            names = [b_["name"] for b_ in walk(pat) if b_.get("k") == "PBinding"]
+            before, after, cut = [], None, False
+            for i_, t in enumerate(src):
+                if cut:
+                    after.append(t)
+                    continue
+                if t[0] == "lit":
+                    idx = next((j for j, ch in enumerate(t[1]) if ch in sepchars), None)
+                    if idx is None:
+                        before.append(t)
+                        continue
+                    if t[1][:idx]:
+                        before.append(("lit", t[1][:idx]))
+                    after = [("lit", t[1][idx + 1:])] if t[1][idx + 1:] else []
+                    cut = True
+                    continue
+                hit = _alphabet(t) & sepchars
+                if not hit:
+                    before.append(t)
+                    continue
+                if t[0] == "sign" and _alphabet(t) <= sepchars:
+                    # the whole sign token is the separator: its information is thrown away
+                    probs.append((f"split_once|separator-is-the-sign-of-field{t[1]}", f"the reader cuts the text at the first of {sorted(sepchars)}, which is the sign the writer puts in front of field {t[1]}: the sign is dropped as a separator, so {variant}(.., -4) is written `..-4` and loads back as +4", loc(init)))
+                    after = []
+                    cut = True
+                    continue
+                probs.append((f"split_once|separator-in-field{t[1]}", f"the reader cuts at {sorted(sepchars)} but field {t[1]} can itself contain {sorted(hit)}", loc(init)))
+                raise Unx("split_once inside a field")
+            if not cut or len(names) != 2:
+                probs.append(("split_once|no-separator", f"the reader cuts at {sorted(sepchars)} but the writer never emits one", loc(init)))
+                raise Unx("split_once")
+            env[names[0]] = ("str", before)
+            env[names[1]] = ("str", after)
             return
         if pat.get("k") == "PBinding":
             env[pat["name"]] = ev_expr(st["init"])
